@@ -1,12 +1,19 @@
 (* C11 correspondence: cases as printed by harness/c11. *)
-From Verif Require Export Lib.Base Model.C11_Registrations.
+From Verif Require Export Lib.Base Model.C11_Registrations Model.C11_Delivery.
 
 Record case := {
   c_id : N;
   c_ops : list op;        (* the history; validators of a round in the order the implementation visited them *)
-  c_outs : list out       (* what the implementation did, op by op: signing requests, what reached each relay
-                             (by ascending address) and each beacon node *)
+  c_timing : list timing; (* how long each relay / beacon node takes in each operation (the mocks behave like real
+                             clients: a request is abandoned when its context is cancelled first); the caller's
+                             context lives ([t_ctx = None]) *)
+  c_outs : list out       (* what the implementation did, op by op: signing requests, what ARRIVED at each relay
+                             (by ascending address) and at each beacon node *)
 }.
+
+(* compact printing of a timing with a living context *)
+Definition T (relays : list (N * N)) (nodes : list N) : timing :=
+  {| t_ctx := None; t_relays := relays; t_nodes := nodes |}.
 
 (* compact printing of the usual shapes (the harness falls back to the constructors otherwise):
    a registration whose signature is over its own message, and a signing request *)
@@ -31,10 +38,13 @@ Definition out_eqb (a b : out) : bool :=
   | _, _ => false
   end.
 
-Definition agree (c : case) : bool := list_eqb out_eqb (snd (run init (c_ops c))) (c_outs c).
+Definition agree (c : case) : bool :=
+  list_eqb out_eqb (snd (run_timed init (c_ops c) (c_timing c))) (c_outs c).
 
 (* ------------------------------------------------------------------------------------------- *)
-(* P_b: the property on the OBSERVED outputs alone.  The only things carried along the history
+(* P_b: the property on the OBSERVED outputs alone.  It does not look at the timing: the caller's
+   context lives, so whatever the latencies and whoever fails first, everything has to arrive
+   (the mocks record a request only when it arrives).  The only things carried along the history
    are computed from the inputs and from the observed signing requests:
      [lastsig] : public key -> (content, stamp) of the last successful signing request seen;
      [ctrl]    : the public keys of the last round that did its work. *)
@@ -93,6 +103,15 @@ Definition positions_at (v : validator) (c : content) (addr : N) : nat :=
 Definition failed_reqs (reqs : list sigreq) (v : validator) (c : content) : nat :=
   count (fun q => negb (q_ok q) && (q_acct q =? v_acct v) && content_eqb (q_content q) c) reqs.
 
+(* the k-th signing request of an account fails only if the signer made it fail ([v_sign], an input
+   of the round; missing = the signer signs): a request that fails for any other reason -- abandoned
+   because something else failed -- is nobody's excuse *)
+Fixpoint outcomes_ok (signs oks : list bool) : bool :=
+  match oks with
+  | [] => true
+  | o :: oks' => Bool.eqb o (hd true signs) && outcomes_ok (tl signs) oks'
+  end.
+
 Definition round_active (r : round_in) : bool :=
   if r_api r then r_cfg r
   else negb (r_acct_err r) && r_cfg r && match r_vals r with [] => false | _ => true end.
@@ -118,6 +137,7 @@ Definition round_ok (lastsig : list (N * (content * N))) (r : round_in)
          && existsb (fun v => (q_acct q =? v_acct v)
                               && existsb (fun rc => content_eqb (q_content q) (spec_content v rc)) (spec_relays v)) vals)
        reqs
+    && forallb (fun v => outcomes_ok (v_sign v) (map q_ok (filter (fun q => q_acct q =? v_acct v) reqs))) vals
     (* P2: everything a relay is sent is a validator's registration for that relay, well signed,
        fresh or a legitimate reuse; no relay is sent more than its share; unreachable relays see nothing *)
     && forallb (fun e =>
